@@ -1,0 +1,11 @@
+//go:build verif
+
+// Contracts for the verifier in /verif (comment-only; compiled only with -tags verif).
+
+package commitments
+
+//@ func ParseSecrets
+//@   props C06 C16
+//@   requires forall k in 0..len(secrets) :: secrets[k] != nil
+//@   loop 0 invariant 0 <= el && len(parts) <= 3
+//@   loop 0 invariant !isLenEl ==> nextPartLen <= 1048576
